@@ -18,6 +18,18 @@ Fixpoint run_calls (which : nat) (calls : list (nat * bool)) (k : kern) (s : sch
 Definition run_transport (c : nat * kern * sched * list (nat * bool)) : V :=
   match c with (which, k, s, calls) => VL (fst (fst (run_calls which calls k s))) end.
 
+(** the socket's own timeout across a sequence of reads: before read i the application sets it to owns[i]; each read uses
+    timeout 5000 ms (0 when t0) *)
+Fixpoint run_sock_t (owns : list (option Z)) (calls : list (nat * bool)) (k : kern) (s : sched) : list V :=
+  match calls, owns with
+  | (n, t0) :: r, o :: os =>
+      let '(x, k1, s1, sk) := sock_read_t {| own := o; tlog := [] |} (Some (if t0 then 0 else 5000)%Z) k s n in
+      VL [vopt (fun z => VI z) (own sk); vlist (vopt (fun z => VI z)) (tlog sk)] :: run_sock_t os r k1 s1
+  | _, _ => []
+  end.
+Definition run_sock_timeouts (c : kern * sched * list (nat * bool) * list (option Z)) : V :=
+  match c with (k, s, calls, owns) => VL (run_sock_t owns calls k s) end.
+
 (** PopenSpawn (job popen-sim): operations are reads (size, schedule of the loop) or things happening between calls *)
 From PV Require Import Transport.Popen.
 Definition enc_pw (w : pw) : V :=
